@@ -82,7 +82,7 @@ structure PenSt where
   changed : Bool := false
   deriving DecidableEq, Repr
 
-/-- the statements a pen operation consists of, as far as emission goes -/
+/-- the statements a pen operation consists of, as far as emission goes (freeze..thaw regions are tasks of their own) -/
 inductive PenStep
   /-- `tickit_pen_set_bool_attr(pen, TICKIT_PEN_BOLD, v)`: set, then `changed(pen)` -/
   | setBool (v : Bool)
@@ -90,9 +90,7 @@ inductive PenStep
   | setCol (n : Int)
   /-- `tickit_pen_set_colour_attr_rgb8(pen, TICKIT_PEN_FG, r)`: only if FG is set; then `changed(pen)` -/
   | setRgb (r : Nat)
-  | freeze
-  | thaw
-  /-- `tickit_pen_copy_attr(pen, t, TICKIT_PEN_FG)` -/
+  /-- `tickit_pen_copy_attr(pen, t, TICKIT_PEN_FG)`: a freeze..thaw region of its own -/
   | copyAttrFg (t : Tmpl)
   /-- the FG / BOLD iterations of the loop of `tickit_pen_copy(pen, t, overwrite)` -/
   | loopFg (t : Tmpl) (ow : Bool)
@@ -111,17 +109,24 @@ inductive PenOp
   | desc (n : Int) (rgb : Option Nat)
   deriving DecidableEq, Repr
 
-def PenOp.steps : PenOp → List PenStep
+/-- is the whole operation one freeze..thaw region? -/
+def PenOp.isRegion : PenOp → Bool
+  | .copy _ _ => true
+  | .desc _ _ => true
+  | _ => false
+
+/-- the statements of the operation (inside its region, if it is one) -/
+def PenOp.body : PenOp → List PenStep
   | .setBool v => [.setBool v]
   | .setCol n => [.setCol n]
-  | .copy t ow => [.freeze, .loopFg t ow, .loopBold t ow, .thaw]
+  | .copy t ow => [.loopFg t ow, .loopBold t ow]
   | .copyAttr t => [.copyAttrFg t]
-  | .desc n rgb => [.freeze, .setCol n] ++ (match rgb with | some r => [.setRgb r] | none => []) ++ [.thaw]
+  | .desc n rgb => [.setCol n] ++ (match rgb with | some r => [.setRgb r] | none => [])
 
-/-- `tickit_pen_copy_attr` for the colour: read the source first, then freeze, set the index, the RGB8 if the source
-    has one, thaw -/
-def copyAttrFgSteps (t : Tmpl) : List PenStep :=
-  [.freeze, .setCol (t.fg.getD (-1))] ++ (match t.fg, t.rgb with | some _, some r => [.setRgb r] | _, _ => []) ++ [.thaw]
+/-- inside the region of `tickit_pen_copy_attr` for the colour (the source is read first): set the index, then the
+    RGB8 if the source has one -/
+def attrFgBody (t : Tmpl) : List PenStep :=
+  [.setCol (t.fg.getD (-1))] ++ (match t.fg, t.rgb with | some _, some r => [.setRgb r] | _, _ => [])
 
 /-- `tickit_pen_equiv_attr(src, dst, TICKIT_PEN_FG)` when both have the attribute -/
 def fgEquiv (p : PenSt) (t : Tmpl) : Bool := p.fg == t.fg && p.rgb == t.rgb
@@ -300,6 +305,8 @@ inductive Task
   | unref
   /-- the rest of a pen operation -/
   | pen (steps : List PenStep)
+  /-- `freeze(pen); <body>; thaw(pen);` -/
+  | penRegion (body : List PenStep)
   /-- `tickit_bindings_run_event` (`wf = false`) / `tickit_bindings_run_event_whilefalse` -/
   | runEvent (wf : Bool) (ev : Int)
   /-- the `for(bind = …; bind; bind = bind->next)` loop of a walker, standing at `cur` -/
@@ -348,29 +355,34 @@ def exec : Nat → Task → St → Res (St × Int)
           | .setBool v => changed { st with pen := { st.pen with bold := some v } }
           | .setCol n => exec fuel (.emitter false 1) { st with pen := { st.pen with fg := some n, rgb := none } }
           | .setRgb r => if st.pen.fg.isSome then changed { st with pen := { st.pen with rgb := some r } } else .ok (st, 0)
-          | .freeze =>
-            .ok ({ st with pen := { st.pen with freeze := st.pen.freeze + 1 },
-                           refs := if own.holdsRef then st.refs + 1 else st.refs,
-                           frozenRefs := if own.holdsRef then st.frozenRefs + 1 else st.frozenRefs }, 0)
-          | .thaw =>
-            if st.pen.freeze = 0 then .ok (st, 0) else
-            -- pen->freezecount--; if(!pen->freezecount && pen->changed) { pen->changed = false; run_events(…); } unref
-            let emits := st.pen.freeze = 1 && st.pen.changed
-            let st1 : St := { st with
-              pen := { st.pen with freeze := st.pen.freeze - 1, changed := if emits then false else st.pen.changed },
-              frozenRefs := if own.holdsRef then st.frozenRefs - 1 else st.frozenRefs }
-            let r1 : Res (St × Int) := if emits then exec fuel (.runEvent false 1) st1 else .ok (st1, 0)
-            match r1 with
-            | .ok (st2, _) => if own.holdsRef then exec fuel .unref st2 else .ok (st2, 0)
-            | e => e
-          | .copyAttrFg t => exec fuel (.pen (copyAttrFgSteps t)) st
-          | .loopFg t ow => if loopCopiesFg st.pen t ow then exec fuel (.pen (copyAttrFgSteps t)) st else .ok (st, 0)
+          | .copyAttrFg t => exec fuel (.penRegion (attrFgBody t)) st
+          | .loopFg t ow => if loopCopiesFg st.pen t ow then exec fuel (.penRegion (attrFgBody t)) st else .ok (st, 0)
           | .loopBold t ow =>
             if loopCopiesBold st.pen t ow then changed { st with pen := { st.pen with bold := some (t.bold.getD false) } }
             else .ok (st, 0)
         match r with
         | .ok (st2, _) => exec fuel (.pen rest) st2
         | e => e
+    | .penRegion body =>
+      if st.dead then .ok (st, 0) else
+      -- freeze(pen): a reference (when the emitters hold references), freezecount++
+      let st1 : St := { st with
+        pen := { st.pen with freeze := st.pen.freeze + 1 },
+        refs := if own.holdsRef then st.refs + 1 else st.refs,
+        frozenRefs := if own.holdsRef then st.frozenRefs + 1 else st.frozenRefs }
+      match exec fuel (.pen body) st1 with
+      | .ok (st2, _) =>
+        if st2.dead then .ok (st2, 0) else
+        -- thaw(pen): freezecount--; if(!freezecount && changed) { changed = false; run_events(…); }  unref
+        let emits := st2.pen.freeze = 1 && st2.pen.changed
+        let st3 : St := { st2 with
+          pen := { st2.pen with freeze := st2.pen.freeze - 1, changed := if emits then false else st2.pen.changed },
+          frozenRefs := if own.holdsRef then st2.frozenRefs - 1 else st2.frozenRefs }
+        let r3 : Res (St × Int) := if emits then exec fuel (.runEvent false 1) st3 else .ok (st3, 0)
+        match r3 with
+        | .ok (st4, _) => if own.holdsRef then exec fuel .unref st4 else .ok (st4, 0)
+        | e => e
+      | e => e
     | .unref =>
       if st.dead || st.refs == 0 then .ub "unref of an owner that is already destroyed"
       else if st.refs == 1 then
@@ -452,7 +464,7 @@ def exec : Nat → Task → St → Res (St × Int)
               | some n => exec fuel (.pen [.setCol n]) st1
               | none => exec fuel (.emitter (own.wf ev) ev) st1
             else .ok (st1, 0)
-          | .pen op => exec fuel (.pen op.steps) st1
+          | .pen op => if op.isRegion then exec fuel (.penRegion op.body) st1 else exec fuel (.pen op.body) st1
           -- the handlers own one reference and drop it once
           | .destroy => if st1.userRef then exec fuel .unref { st1 with userRef := false } else .ok (st1, 0)
         match r with
@@ -539,7 +551,7 @@ def execOp (fuel : Nat) (op : Op) (st : St) : Res St :=
       | some n => (exec cfg own beh fuel (.pen [.setCol n]) st).dropRet
       | none => (exec cfg own beh fuel (.emitter (own.wf ev) ev) st).dropRet
     else .ok st
-  | .pen op => (exec cfg own beh fuel (.pen op.steps) st).dropRet
+  | .pen op => (if op.isRegion then exec cfg own beh fuel (.penRegion op.body) st else exec cfg own beh fuel (.pen op.body) st).dropRet
   | .destroy =>
     -- tickit_bindings_unbind_and_destroy: reverse the chain, notify, free
     (exec cfg own beh fuel (.destroyLoop st.list.reverse) st).dropRet
